@@ -294,6 +294,12 @@ func (s *Stream) startConsume(consumer Consumer, packetType PacketType, extra st
 	verifhook.Point("media.join.registered", s, consumer)
 
 	go c.consume()
+
+	// 流可能在查找到它之后、注册消费者之前(或同时)被关闭：
+	// close 先置状态再清理消费者，这里先注册再检查状态，两者至少有一方能看到对方
+	if atomic.LoadInt32(&s.status) != StreamOK {
+		s.StopConsume(c.cid)
+	}
 	return c.cid
 }
 
